@@ -24,6 +24,7 @@ pub fn prop() -> Prop {
             Sub::tape("confine_display_scale", 40, 2_000_000, 100_000_000, confine_display_scale),
             Sub::tape("rrect_random", 64, 200_000, 10_000_000, rrect_random),
             Sub::tape("large_round", 24, 6_000, 300_000, large_round),
+            Sub::tape("huge_round_sampled_rows", 200, 600, 30_000, huge_round),
             Sub::enumerate("sector_grid", sector_grid).with_fp(),
             Sub::tape("sectors_random", 16, 60_000, 3_000_000, sectors_random).with_fp(),
         ],
@@ -464,6 +465,148 @@ fn large_round(d: &mut Dec, cx: &mut Cx) -> Res {
     Ok(())
 }
 
+
+/// Circles and ellipses of 1025..=20000 px judged on sampled rows: `contains()` against the half-pixel band
+/// around the ideal curve at probes next to the curve, circle == equal-axes ellipse, the rows that a
+/// filled shape draws (a row-sampling target; O(diameter) per draw) against `contains()`, each drawn row one
+/// run, the circle touches its box; `points()` as a stream for diameters up to 4600.
+fn huge_round(d: &mut Dec, cx: &mut Cx) -> Res {
+    use crate::props::c06::huge_size;
+    use crate::targets::RowsT;
+    use embedded_graphics::primitives::{Primitive, PrimitiveStyle};
+    use embedded_graphics::Drawable;
+    let circle = d.ratio(2, 3);
+    let (w, h) = if circle {
+        let s = huge_size(d);
+        (s, s)
+    } else {
+        match d.u(0, 2) {
+            0 => (huge_size(d), d.u(1, 100)),
+            1 => (d.u(1, 100), huge_size(d)),
+            _ => (huge_size(d), huge_size(d)),
+        }
+    };
+    let tl = if d.bool() { Point::new(-(w as i32) / 2 + d.i(-3, 3), -(h as i32) / 2 + d.i(-3, 3)) } else { Point::new(d.i(-29_000, 29_000 - w as i32), d.i(-29_000, 29_000 - h as i32)) };
+    cx.describe(|| format!("{} {}x{} at {:?}", if circle { "Circle" } else { "Ellipse" }, w, h, tl));
+    cx.class(if circle { "circle" } else { "ellipse" });
+    cx.nontrivial(true);
+    let kind = if circle { "circle" } else { "ellipse" };
+    let c = Circle::new(tl, w);
+    let e = Ellipse::new(tl, Size::new(w, h));
+    let member = |p: Point| if circle { c.contains(p) } else { e.contains(p) };
+    let (a, b) = (w as f64 / 2.0, h as f64 / 2.0);
+    let cxf = tl.x as f64 + (w as f64 - 1.0) / 2.0;
+    let cyf = tl.y as f64 + (h as f64 - 1.0) / 2.0;
+    let (x0, x1, y0, y1) = (tl.x, tl.x + w as i32 - 1, tl.y, tl.y + h as i32 - 1);
+    let mut rows: BTreeSet<i32> = BTreeSet::new();
+    for base in [y0, y1, (y0 + y1) / 2, y0 + (h / 4) as i32, y0 + (h as f64 * 0.1464) as i32] {
+        for k in -3..=3 {
+            rows.insert(base + k);
+        }
+    }
+    for _ in 0..24 {
+        rows.insert(d.i(y0 - 2, y1 + 2));
+    }
+    let fill = PrimitiveStyle::with_fill(Rgb888::new(1, 2, 3));
+    let mut t = RowsT::<Rgb888>::new(rows.iter().copied());
+    if circle {
+        c.into_styled(fill).draw(&mut t).map_err(|e| Fail { sig: "draw_error".into(), detail: format!("{:?}", e) })?;
+    } else {
+        e.into_styled(fill).draw(&mut t).map_err(|e| Fail { sig: "draw_error".into(), detail: format!("{:?}", e) })?;
+    }
+    let mut t2 = RowsT::<Rgb888>::new(rows.iter().copied());
+    if circle {
+        e.into_styled(fill).draw(&mut t2).map_err(|e| Fail { sig: "draw_error".into(), detail: format!("{:?}", e) })?;
+    }
+    for &y in &rows {
+        let dy = y as f64 - cyf;
+        let mut probes: BTreeSet<i32> = BTreeSet::new();
+        let mut near = |x: i32| {
+            for k in -3..=3 {
+                probes.insert(x + k);
+            }
+        };
+        near(x0);
+        near(x1);
+        near((x0 + x1) / 2);
+        let q = 1.0 - (dy / b).powi(2);
+        if q >= 0.0 {
+            let hw = a * q.sqrt();
+            near((cxf - hw).round() as i32);
+            near((cxf + hw).round() as i32);
+        }
+        for x in t.run_ends(y) {
+            near(x);
+        }
+        let runs = t.rows.get(&y).map(|r| r.len()).unwrap_or(0);
+        ensure!(runs <= 1, format!("{}:row_not_contiguous", kind), "row {} of the filled {}x{} shape is drawn as {} runs", y, w, h, runs);
+        for &x in &probes {
+            let p = Point::new(x, y);
+            let m = member(p);
+            let dx = x as f64 - cxf;
+            let gn = ((dx / a).powi(2) + (dy / b).powi(2)).sqrt();
+            let inside = gn < 1.0;
+            let far = (gn - 1.0).abs() * a.min(b) > 0.5 + EPS || dist_to_ellipse(a, b, dx, dy) > 0.5 + EPS;
+            if far {
+                if inside {
+                    ensure!(m, format!("{}:band_missing", kind), "{:?} lies inside the ideal {}x{} curve at {:?}, more than 0.5 px from it, but is not included", p, w, h, tl);
+                } else {
+                    ensure!(!m, format!("{}:band_extra", kind), "{:?} lies outside the ideal {}x{} curve at {:?}, more than 0.5 px from it, but is included", p, w, h, tl);
+                }
+            }
+            let drawn = t.color_at(p).is_some();
+            ensure!(drawn == m, format!("{}:drawn_rows_vs_contains", kind), "{:?}: the filled {}x{} shape at {:?} {} the point, contains() = {}", p, w, h, tl, if drawn { "paints" } else { "does not paint" }, m);
+            if circle {
+                ensure!(e.contains(p) == m, "circle:differs_from_ellipse", "{:?}: Circle d={} contains = {}, the equal-axes Ellipse {}", p, w, m, e.contains(p));
+                ensure!(t2.color_at(p).is_some() == drawn, "circle:differs_from_ellipse", "{:?}: the filled Circle d={} {} the point, the filled equal-axes Ellipse does the opposite", p, w, if drawn { "paints" } else { "does not paint" });
+            }
+        }
+    }
+    if circle {
+        // touches all four sides of its box
+        let mid_y = (y0 + y1) / 2;
+        let ends = t.run_ends(mid_y);
+        ensure!(ends.iter().min() == Some(&x0) && ends.iter().max() == Some(&x1), "circle:does_not_touch_box", "the centre row {} of the filled Circle d={} at {:?} spans {:?}, the box {}..={}", mid_y, w, tl, ends, x0, x1);
+        ensure!(!t.run_ends(y0).is_empty() && !t.run_ends(y1).is_empty(), "circle:does_not_touch_box", "the first or last row of the filled Circle d={} at {:?} is empty", w, tl);
+    }
+    // points() as a stream: row-major, every sampled row one run equal to the drawn run
+    if w as u64 * h as u64 <= 4600 * 4600 && d.ratio(1, 2) {
+        let mut extents: std::collections::BTreeMap<i32, (i32, i32, u32)> = Default::default();
+        let mut prev: Option<Point> = None;
+        let mut feed = |p: Point| -> Res {
+            if let Some(q) = prev {
+                ensure!((q.y, q.x) < (p.y, p.x), format!("{}:points_not_row_major", kind), "points() yields {:?} after {:?}", p, q);
+            }
+            prev = Some(p);
+            if rows.contains(&p.y) {
+                let en = extents.entry(p.y).or_insert((p.x, p.x, 0));
+                en.0 = en.0.min(p.x);
+                en.1 = en.1.max(p.x);
+                en.2 += 1;
+            }
+            Ok(())
+        };
+        if circle {
+            for p in c.points() {
+                feed(p)?;
+            }
+        } else {
+            for p in e.points() {
+                feed(p)?;
+            }
+        }
+        for &y in &rows {
+            let drawn: Option<(i32, i32)> = t.rows.get(&y).and_then(|r| r.first()).map(|r| (r.0, r.1));
+            let pts = extents.get(&y).map(|e| (e.0, e.1));
+            ensure!(drawn == pts, format!("{}:points_vs_drawn_rows", kind), "row {}: points() spans {:?}, the filled shape draws {:?} ({}x{} at {:?})", y, pts, drawn, w, h, tl);
+            if let Some(en) = extents.get(&y) {
+                ensure!(en.2 as i32 == en.1 - en.0 + 1, format!("{}:points_row_not_contiguous", kind), "row {}: points() yields {} points between {} and {}", y, en.2, en.0, en.1);
+            }
+        }
+        cx.count("huge_points_streams", 1);
+    }
+    Ok(())
+}
 
 /// `confine_radii()` alone (no pixels) on rectangles up to 1100 px with radii up to 1100: the sums of the
 /// radii that share a side never exceed the side, fitting radii stay as they are, confining twice changes
